@@ -175,6 +175,7 @@ type world struct {
 	byID        map[string]detection.Signature
 	topos       []topoCase
 	allPositive bool
+	crowd       bool
 }
 
 func buildWorld(idx int, extracted []*topology.FunctionTopology) *world {
@@ -202,7 +203,17 @@ func buildWorld(idx int, extracted []*topology.FunctionTopology) *world {
 		w.sigs = append(w.sigs, s)
 		w.byID[s.ID] = s
 	}
-	for _, b := range bases {
+	for bi, b := range bases {
+		// a crowded family: one world in twelve derives several dozen signatures from its first
+		// topology, so that one scanned function qualifies for far more alerts than any plausible
+		// per-function bound; relations M and X are then evaluated on result sets a quota would cut
+		if bi == 0 && idx%12 == 5 {
+			for k := 40 + r.Intn(80); k > 0; k-- {
+				n++
+				add(deriveSig(r, fmt.Sprintf("W%d-S%d", idx, n), b, bases, w.allPositive))
+			}
+			w.crowd = true
+		}
 		for k := 1 + r.Intn(5); k > 0; k-- {
 			n++
 			add(deriveSig(r, fmt.Sprintf("W%d-S%d", idx, n), b, bases, w.allPositive))
@@ -462,6 +473,12 @@ func (m *monitor) runWorld(w *world, be backend, tols []float64) {
 					continue
 				}
 				m.checkAlerts(c, full, thr)
+				if len(full) > 32 {
+					res.Count(c.be+"_full_result_sets_over_32_alerts", 1)
+				}
+				if len(full) > 64 {
+					res.Count(c.be+"_full_result_sets_over_64_alerts", 1)
+				}
 				c.mode = "full" // relations below are stated on "full mode", whichever entry point served it
 
 				// M: threshold monotonicity against the next lower rung
@@ -791,6 +808,7 @@ func main() {
 		"pebble_exact_vs_full_compared": 50, "json_exact_vs_full_compared": 10,
 		"veto_opportunities_indexed": 50, "prefilter_opportunities_exact": 20,
 		"engine_nan_confidence_indexed": 10, "json_exact_nan_opportunities": 10,
+		"pebble_full_result_sets_over_32_alerts": 20, "json_full_result_sets_over_32_alerts": 20,
 	}
 	keys := make([]string, 0, len(floors))
 	for k := range floors {
